@@ -13,6 +13,14 @@ CLAIMED = {
                 note='Trusted: z3, the AST rewrite (validated by running the repository suite under it), the SymTok model of Token dunder methods (validated each run), '
                      'the reference lexer with the conventions of DESIGN.md section 3, the read(1)/readline stub standing in for StringIO. Inputs longer than the bound are outside the claim.',
                 ref='DESIGN.md section 5 C01'),
+    'C02': dict(level='model_checking',
+                text='Bounded exhaustive over generated macro programs rendered as source text: \\def with 9 parameter patterns x 5 bodies x 4 argument shapes x 4 placements '
+                     '(top level, in a group, call inside another body, call inside an argument), \\newcommand with 1-3 arguments and the optional argument present/absent/empty, '
+                     'nested definitions with ##, \\let before redefinition (chains, groups, with arguments), \\csname-built names, \\expandafter, \\gdef vs \\def in nested groups, '
+                     '#{, 9 parameters, 3 levels of calls - with EVERY payload character a z3 variable, so the visible text must equal the reference expansion symbol for symbol.',
+                note='Program shapes are finite choices; the solver tracks where each argument character lands. Normal form of DESIGN.md section 3 (no recursion, no delimiter hidden '
+                     'in braces, no \\edef). The reference expander is an independent 150-line implementation of TeX\'s substitution rules.',
+                ref='DESIGN.md section 5 C02'),
     'C03': dict(level='model_checking',
                 text='Bounded exhaustive over generated conditional skeletons (source text through the real tokenizer, expansion loop, test primitives and '
                      'processIfContent): for every skeleton with <= 2 (thorough: 3, plus depth-4 chains) conditionals and for ALL operand values - count registers are '
